@@ -52,6 +52,10 @@ PayVerdict(ev) ==
 Verdict(ev) ==
     CASE ev.k = "build" ->
             IF ~ev.ok THEN "error"
+            \* an exempt combo carries no percentage and no surcharge once calculated, whatever the input still had
+            ELSE IF \E ri \in DOMAIN ev.rows : \E rj \in DOMAIN ev.rows[ri].taxes :
+                       ev.rows[ri].taxes[rj].key = "exempt" /\ (ev.rows[ri].taxes[rj].pct # <<>> \/ ev.rows[ri].taxes[rj].sur # <<>>)
+                 THEN "build-exempt-keeps-percentage"
             ELSE LET d == Diff(Build(ev.rows, ev.cd, ev.rr, ev.inc), ev.out) IN IF d = "ok" THEN "ok" ELSE "build-" \o d
       [] ev.k = "merge" ->
             IF ~ev.ok THEN "error"
